@@ -21,12 +21,14 @@ import (
 	"encoding/json"
 	"fmt"
 	"math"
+	"net"
 	"os"
 	"sync"
 	"sync/atomic"
 	"testing"
 	"time"
 
+	"github.com/Jigsaw-Code/outline-ss-server/ipinfo"
 	"github.com/Jigsaw-Code/outline-ss-server/service"
 	"github.com/Jigsaw-Code/outline-ss-server/service/metrics"
 	"github.com/prometheus/client_golang/prometheus"
@@ -37,6 +39,7 @@ type vcStep struct {
 	A   string  `json:"a"`
 	C   int     `json:"c"`
 	Key int     `json:"key"`
+	Loc int     `json:"loc"`
 	B   int64   `json:"b"`
 	St  int     `json:"st"`
 	D   []int64 `json:"d"`
@@ -58,6 +61,33 @@ type vcInput struct {
 
 var vcTCPStatus = []string{"OK", "ERR_CIPHER", "ERR_RELAY_CLIENT"}
 var vcUDPStatus = []string{"OK", "ERR_CIPHER"}
+var vcLocs = []string{"AA", "BB", "XL"} // location label of the client classes 1..3 (global v4, global v6, loopback)
+
+// a client of location class `loc` for connection c: MANY different addresses (and, through the database below, many
+// different AS numbers) per class
+func vcClientIP(loc, c int) net.IP {
+	switch loc {
+	case 1:
+		return net.IPv4(203, 0, byte(c/250%250), byte(c%250+1))
+	case 2:
+		return net.ParseIP(fmt.Sprintf("2001:db8:%x::77", c%60000+1))
+	default:
+		return net.IPv4(127, byte(c/60000%250), byte(c/250%250), byte(c%250+1))
+	}
+}
+
+// location database: country by address family, AS number by address (hundreds of different non-zero numbers)
+type vcDB struct{}
+
+func (vcDB) GetIPInfo(ip net.IP) (ipinfo.IPInfo, error) {
+	n := int(ip[len(ip)-1]) + 256*int(ip[len(ip)-2])
+	if v4 := ip.To4(); v4 != nil {
+		return ipinfo.IPInfo{CountryCode: "AA", ASN: ipinfo.ASN{Number: 64000 + n%900, Organization: "Org-A"}}, nil
+	}
+	n = int(ip[5]) + 256*int(ip[4])
+	return ipinfo.IPInfo{CountryCode: "BB", ASN: ipinfo.ASN{Number: 4200000000 + n%900, Organization: "Org-B"}}, nil
+}
+
 var vcDirs = map[string]int{"c>p": 0, "p>t": 1, "p<t": 2, "c<p": 3}
 
 func vcIdx(list []string, s string) int {
@@ -96,7 +126,12 @@ func vcObserve(mfs []*dto.MetricFamily, nk int) map[string]any {
 		return m
 	}
 	tbytes, ubytes := mk(), mk()
-	tloc, uloc := make([]int64, 4), make([]int64, 4)
+	nl := len(vcLocs)
+	openedl, closedl := make([]int64, nl), make([]int64, nl)
+	tlocb, ulocb, upktsl := make([][]int64, nl), make([][]int64, nl), make([][]int64, nl)
+	for i := 0; i < nl; i++ {
+		tlocb[i], ulocb[i], upktsl[i] = make([]int64, 4), make([]int64, 4), make([]int64, len(vcUDPStatus))
+	}
 	upkts := make([]int64, len(vcUDPStatus))
 	durN := make([]int64, len(vcTCPStatus))
 	var opened, probeN, probeB, natadd, natrem, other int64
@@ -106,12 +141,19 @@ func vcObserve(mfs []*dto.MetricFamily, nk int) map[string]any {
 			switch mf.GetName() {
 			case "tcp_connections_opened":
 				opened += vcInt(m.GetCounter().GetValue())
+				if x := vcIdx(vcLocs, l["location"]); x >= 0 {
+					openedl[x] += vcInt(m.GetCounter().GetValue())
+				} else {
+					other += vcInt(m.GetCounter().GetValue())
+				}
 			case "tcp_connections_closed":
 				s, k := vcIdx(vcTCPStatus, l["status"]), vcKeyIdx(l["access_key"], nk)
-				if s < 0 || k < 0 {
+				x := vcIdx(vcLocs, l["location"])
+				if s < 0 || k < 0 || x < 0 {
 					other += vcInt(m.GetCounter().GetValue())
 				} else {
 					closed[s][k] += vcInt(m.GetCounter().GetValue())
+					closedl[x] += vcInt(m.GetCounter().GetValue())
 				}
 			case "tcp_connection_duration_ms":
 				if s := vcIdx(vcTCPStatus, l["status"]); s >= 0 {
@@ -135,14 +177,15 @@ func vcObserve(mfs []*dto.MetricFamily, nk int) map[string]any {
 				}
 			case "data_bytes_per_location":
 				d, okd := vcDirs[l["dir"]]
+				x := vcIdx(vcLocs, l["location"])
 				v := vcInt(m.GetCounter().GetValue())
 				switch {
-				case !okd:
+				case !okd || x < 0:
 					other += v
 				case l["proto"] == "tcp":
-					tloc[d] += v
+					tlocb[x][d] += v
 				case l["proto"] == "udp":
-					uloc[d] += v
+					ulocb[x][d] += v
 				default:
 					other += v
 				}
@@ -154,16 +197,18 @@ func vcObserve(mfs []*dto.MetricFamily, nk int) map[string]any {
 			case "udp_nat_entries_removed":
 				natrem += vcInt(m.GetCounter().GetValue())
 			case "udp_packets_from_client_per_location":
-				if s := vcIdx(vcUDPStatus, l["status"]); s >= 0 {
+				if s, x := vcIdx(vcUDPStatus, l["status"]), vcIdx(vcLocs, l["location"]); s >= 0 && x >= 0 {
 					upkts[s] += vcInt(m.GetCounter().GetValue())
+					upktsl[x][s] += vcInt(m.GetCounter().GetValue())
 				} else {
 					other += vcInt(m.GetCounter().GetValue())
 				}
 			}
 		}
 	}
-	return map[string]any{"opened": opened, "closed": closed, "durn": durN, "tbytes": tbytes, "tloc": tloc, "proben": probeN,
-		"probeb": probeB, "natadd": natadd, "natrem": natrem, "upkts": upkts, "ubytes": ubytes, "uloc": uloc, "other": other}
+	return map[string]any{"opened": opened, "closed": closed, "durn": durN, "tbytes": tbytes, "proben": probeN,
+		"probeb": probeB, "natadd": natadd, "natrem": natrem, "upkts": upkts, "ubytes": ubytes, "other": other,
+		"openedl": openedl, "closedl": closedl, "tlocb": tlocb, "upktsl": upktsl, "ulocb": ulocb}
 }
 
 type vcRun struct {
@@ -189,14 +234,13 @@ func (r *vcRun) getUDP(c int) service.UDPConnMetrics {
 // event to record; nil for Scrape.
 func (r *vcRun) step(st vcStep, off int, who int) map[string]any {
 	c := st.C + off
-	ip := (c+who)%len(vfClientIPs) + 1
 	switch st.A {
 	case "Open":
-		cm := r.m.AddOpenTCPConnection(&vfTCPConn{local: vfListeners[c%2], remote: vfTCPAddr(ip)})
+		cm := r.m.AddOpenTCPConnection(&vfTCPConn{local: vfListeners[c%2], remote: &net.TCPAddr{IP: vcClientIP(st.Loc, c+who), Port: 40000 + c%20000}})
 		r.mu.Lock()
 		r.tcp[c] = cm
 		r.mu.Unlock()
-		return map[string]any{"ev": "Open", "c": c}
+		return map[string]any{"ev": "Open", "c": c, "loc": st.Loc}
 	case "Auth":
 		r.getTCP(c).AddAuthenticated(vfKey(st.Key))
 		return map[string]any{"ev": "Auth", "c": c, "key": st.Key}
@@ -208,11 +252,11 @@ func (r *vcRun) step(st vcStep, off int, who int) map[string]any {
 			time.Duration(c%5+1)*time.Second)
 		return map[string]any{"ev": "Close", "c": c, "st": st.St, "d": st.D}
 	case "NatAdd":
-		cm := r.m.AddUDPNatEntry(vfUDPAddr(ip), vfKey(st.Key))
+		cm := r.m.AddUDPNatEntry(&net.UDPAddr{IP: vcClientIP(st.Loc, c+who), Port: 40000 + c%20000}, vfKey(st.Key))
 		r.mu.Lock()
 		r.udp[c] = cm
 		r.mu.Unlock()
-		return map[string]any{"ev": "NatAdd", "c": c, "key": st.Key}
+		return map[string]any{"ev": "NatAdd", "c": c, "key": st.Key, "loc": st.Loc}
 	case "PktC":
 		cm := r.getUDP(c)
 		n := st.N * r.rep
@@ -266,7 +310,7 @@ func TestVerifMetricsCount(t *testing.T) {
 		w.WriteByte('\n')
 	}
 	fresh := func(rep int) (*vcRun, *prometheus.Registry) {
-		m, err := NewServiceMetrics(nil)
+		m, err := NewServiceMetrics(vcDB{})
 		if err != nil {
 			t.Fatalf("HARNESS-ERROR: %v", err)
 		}
